@@ -485,7 +485,10 @@ func (sm *shardManagerImpl) RegisterShard(clientShardID history.ClusterShardID) 
 	sm.logger.Info("RegisterShard", tag.NewStringTag("shard", ClusterShardIDtoString(clientShardID)))
 	registeredAt := sm.addLocalShard(clientShardID)
 	verifPoint("RegisterShard.afterAdd")
-	sm.broadcastShardChange("register", clientShardID)
+	// Announce the registration with its own timestamp, not the (later) time of the broadcast: receivers compare the
+	// announced time with the Created time of their own registration of the shard, and two instances that register the
+	// same shard within one broadcast latency must not both yield to each other.
+	sm.broadcastShardChange("register", clientShardID, registeredAt)
 
 	// Trigger memberlist metadata update to propagate NodeMeta to other nodes
 	// Run asynchronously to avoid blocking callers
@@ -523,7 +526,7 @@ func (sm *shardManagerImpl) UnregisterShard(clientShardID history.ClusterShardID
 		verifPoint("UnregisterShard.afterUnlock")
 
 		sm.removeLocalShard(clientShardID)
-		sm.broadcastShardChange("unregister", clientShardID)
+		sm.broadcastShardChange("unregister", clientShardID, time.Now())
 
 		// Trigger memberlist metadata update to propagate NodeMeta to other nodes
 		// Run asynchronously to avoid blocking callers
@@ -879,7 +882,7 @@ func (sm *shardManagerImpl) GetIntraProxyTLSConfig() encryption.TLSConfig {
 	return sm.intraProxyTLSConfig
 }
 
-func (sm *shardManagerImpl) broadcastShardChange(msgType string, shard history.ClusterShardID) {
+func (sm *shardManagerImpl) broadcastShardChange(msgType string, shard history.ClusterShardID, timestamp time.Time) {
 	if verifTapBroadcast(sm, msgType, shard) {
 		return
 	}
@@ -891,7 +894,7 @@ func (sm *shardManagerImpl) broadcastShardChange(msgType string, shard history.C
 		Type:        msgType,
 		NodeName:    sm.GetNodeName(),
 		ClientShard: shard,
-		Timestamp:   time.Now(),
+		Timestamp:   timestamp,
 	}
 
 	data, err := json.Marshal(msg)
